@@ -12,22 +12,16 @@ import (
 	"time"
 )
 
-const basePow2 = `(define-fun pow2 ((k Int)) Int (ite (<= k 0) 1 (ite (= k 1) 2 (ite (= k 2) 4 (ite (= k 3) 8 (ite (= k 4) 16 (ite (= k 5) 32 (ite (= k 6) 64 (ite (= k 7) 128 (ite (= k 8) 256 (ite (= k 9) 512 (ite (= k 10) 1024 (ite (= k 11) 2048 (ite (= k 12) 4096 (ite (= k 13) 8192 (ite (= k 14) 16384 (ite (= k 15) 32768 (ite (= k 16) 65536 (pow2big k)))))))))))))))))))
-`
-
-func pow2BigDef() string {
-	// pow2big(k) for 17..256 as an ite chain
+// pow2 is an uninterpreted function pinned by ground facts for 0..256 (cheaper for the solvers than a nested
+// ite definition: it stays opaque until an argument is decided) plus positivity.
+func pow2Def() string {
 	var b strings.Builder
-	b.WriteString("(define-fun pow2big ((k Int)) Int ")
-	n := 0
-	for k := 17; k <= 256; k++ {
-		b.WriteString(fmt.Sprintf("(ite (= k %d) %s ", k, pow2s(k)))
-		n++
+	b.WriteString("(declare-fun pow2 (Int) Int)\n")
+	for k := 0; k <= 256; k++ {
+		b.WriteString(fmt.Sprintf("(assert (= (pow2 %d) %s))\n", k, pow2s(k)))
 	}
-	b.WriteString("(pow2u k)")
-	b.WriteString(strings.Repeat(")", n))
-	b.WriteString(")\n")
-	return "(declare-fun pow2u (Int) Int)\n" + b.String()
+	b.WriteString("(assert (forall ((k Int)) (! (>= (pow2 k) 1) :pattern ((pow2 k)))))\n")
+	return b.String()
 }
 
 const baseStr = "(declare-fun strlen (Int) Int)\n(assert (forall ((s Int)) (! (>= (strlen s) 0) :pattern ((strlen s)))))\n"
@@ -36,8 +30,7 @@ const baseBits = "(declare-fun bitand (Int Int) Int)\n(declare-fun bitor (Int In
 func (g *Gen) header() string {
 	var b strings.Builder
 	if g.uses["pow2"] {
-		b.WriteString(pow2BigDef())
-		b.WriteString(basePow2)
+		b.WriteString(pow2Def())
 	}
 	if g.uses["str"] {
 		b.WriteString(baseStr)
